@@ -919,6 +919,9 @@ with SqlImpl.impl_store.impl_manager as impl:
 
     @impl(ops.coalesce)
     def _coalesce(*x):
+        if len(x) == 1:
+            # COALESCE needs at least two arguments
+            return x[0]
         return sqa.func.coalesce(*x)
 
     @impl(ops.str_join)
